@@ -1112,6 +1112,15 @@ def inline_constants(trees: dict[str, ast.Module]) -> int:
                         n.comparators[i] = ast.copy_location(ast.List(elts=c.elts, ctx=ast.Load()), c)
             elif isinstance(n, (ast.For, ast.comprehension)) and isinstance(n.iter, ast.Tuple) and _literal(n.iter):
                 n.iter = ast.copy_location(ast.List(elts=n.iter.elts, ctx=ast.Load()), n.iter)
+            elif isinstance(n, ast.Call) and any(isinstance(a, ast.Starred) and isinstance(a.value, (ast.Tuple, ast.List)) and _literal(a.value) for a in n.args):
+                # f(*("a", "b")) is f("a", "b"): a literal sequence unpacked on the spot (a named constant passed with a star)
+                args: list[ast.expr] = []
+                for a in n.args:
+                    if isinstance(a, ast.Starred) and isinstance(a.value, (ast.Tuple, ast.List)) and _literal(a.value):
+                        args.extend(ast.copy_location(copy.deepcopy(e), a) for e in a.value.elts)
+                    else:
+                        args.append(a)
+                n.args = args
     for tree in trees.values():
         ast.fix_missing_locations(tree)
     return n_repl
